@@ -279,7 +279,10 @@ def parse_dir_file_data(byte_order: str, rifx_offset, \
                 
                 elif res.chunkID == 'BITD':
                     clutData = bytes()
-                    paletteId = int(castData['palette'])
+                    # only 8-bit members carry a palette number; the key is absent
+                    # (or names a system palette) for every other bitmap
+                    palette = castData.get('palette', 0)
+                    paletteId = int(palette) if str(palette).lstrip('-').isdigit() else 0
                     if paletteId > 0:
                         p = paletteId - 1
                         clutData = cast[p]['palette']
